@@ -1,13 +1,32 @@
-(* C15 — property theorems.  Only statements closed by `exact <lemma>` and the
-   Print Assumptions that the check collects. *)
-From Coq Require Import ZArith List Bool Lia.
-From IBL.C15 Require Import Model Proofs.
+(* C15 — property theorems.  Only statements closed by `exact <lemma>` (or a
+   1-3 line wrapper) and the Print Assumptions that the check collects.
+
+   "Ordered field" below means: a carrier F with operations O : ops F such that
+     field_theory 0 1 + * - opp / inv (=)          (Coq's field axioms)
+     < irreflexive, transitive, total, compatible with + and with * on positives
+   (five hypotheses, spelled out in each theorem).  The reals are one; the
+   canonical rationals Qc, which contain every float64 and on which the
+   correspondence run evaluates the very same functions, are another
+   (C15_Qc_ordered_field). *)
+From Coq Require Import ZArith List Bool Lia Field QArith Qcanon.
+From IBL.C15 Require Import Model Proofs Run.
 Import ListNotations.
 Open Scope Z_scope.
 
-(* Channels whose label is not 1 (dead) or 2 (noisy) are returned identical:
-   for every carrier, every weight table, every label vector (clusters, probe
-   ends, any length) and every data array. *)
+Definition ordered_field {F : Type} (O : ops F) : Prop :=
+  field_theory (f0 O) (f1 O) (fadd O) (fmul O) (fsub O) (fopp O) (fdiv O) (finv O) eq /\
+  (forall a, fltb O a a = false) /\
+  (forall a b c, fltb O a b = true -> fltb O b c = true -> fltb O a c = true) /\
+  (forall a b, fltb O a b = true \/ a = b \/ fltb O b a = true) /\
+  (forall a b c, fltb O a b = true -> fltb O (fadd O a c) (fadd O b c) = true) /\
+  (forall a b, fltb O (f0 O) a = true -> fltb O (f0 O) b = true -> fltb O (f0 O) (fmul O a b) = true).
+
+(* a <= b *)
+Definition fle {F : Type} (O : ops F) (a b : F) : Prop := fltb O b a = false.
+
+(* 1. Channels whose label is not 1 (dead) or 2 (noisy) are returned identical:
+   every carrier, every weight table, every label vector (clusters, probe ends,
+   any length), every data array; the number of channels is unchanged. *)
 Theorem C15_good_untouched :
   forall (F : Type) (O : ops F) (thr : F) (W : nat -> list F) (labels : list Z)
          (data : list (list F)) (i : nat),
@@ -16,3 +35,180 @@ Theorem C15_good_untouched :
   length (interpolate O thr W labels data) = length data.
 Proof. intros. split; [now apply good_untouched | apply interpolate_length]. Qed.
 Print Assumptions C15_good_untouched.
+
+(* 2. Every dead/noisy channel i is replaced by a convex combination of ORIGINAL
+   rows of channels that are not dead/noisy (label 0 or 3) and whose raw weight
+   is not below the threshold: with S = sources ... (W i) the (channel, weight)
+   pairs the code uses,
+     - every source is a channel of the probe, not dead/noisy, weight > 0, raw weight >= thr;
+     - the weights sum to one (when there is a source);
+     - sample t of the new row is  sum_{(j,w) in S} w * data[j][t]   (the loop is
+       sequential and in place, yet only original rows enter);
+     - hence the new row lies between any bounds lo <= . <= hi that hold for the
+       sources at that sample;
+     - when there is no source the row is zero.
+   For every ordered field, every non-negative weight table W, every threshold,
+   every label vector and every rectangular data array. *)
+Theorem C15_bad_is_convex :
+  forall (F : Type) (O : ops F), ordered_field O ->
+  forall (thr : F) (W : nat -> list F) (labels : list Z) (data : list (list F)) (ns i : nat),
+  length labels = length data ->
+  (forall p, length (W p) = length data) ->
+  (forall p v, In v (W p) -> fle O (f0 O) v) ->
+  (forall j, (j < length data)%nat -> length (nth j data []) = ns) ->
+  (i < length data)%nat -> is_bad (nth i labels 0) = true ->
+  let S := sources O thr labels (W i) in
+  let out := nth i (interpolate O thr W labels data) [] in
+  (forall j w, In (j, w) S ->
+     (j < length data)%nat /\ is_bad (nth j labels 0) = false /\ fltb O (f0 O) w = true /\
+     fltb O (nth j (W i) (f0 O)) thr = false) /\
+  (S <> [] -> fsum O (map snd S) = f1 O) /\
+  length out = ns /\
+  (forall t, (t < ns)%nat ->
+     nth t out (f0 O) = dot F O (fun j => nth t (nth j data []) (f0 O)) S) /\
+  (S = [] -> out = repeat (f0 O) ns) /\
+  (forall t lo hi, (t < ns)%nat -> S <> [] ->
+     (forall j w, In (j, w) S -> fle O lo (nth t (nth j data []) (f0 O)) /\
+                                 fle O (nth t (nth j data []) (f0 O)) hi) ->
+     fle O lo (nth t out (f0 O)) /\ fle O (nth t out (f0 O)) hi).
+Proof.
+  intros F O [H1 [H2 [H3 [H4 [H5 H6]]]]] thr W labels data ns i.
+  exact (bad_row_convex F O H1 H2 H3 H4 H5 H6 thr W labels data ns i).
+Qed.
+Print Assumptions C15_bad_is_convex.
+
+(* 3. A dead/noisy channel has NO source exactly when every channel of the probe
+   is dead/noisy or has a raw weight below the (positive) threshold; then, by
+   theorem 2, its row is zero; otherwise it is the convex combination. *)
+Theorem C15_bad_zero_when_isolated :
+  forall (F : Type) (O : ops F), ordered_field O ->
+  forall (thr : F) (labels : list Z) (w : list F),
+  (forall v, In v w -> fle O (f0 O) v) -> fltb O (f0 O) thr = true ->
+  (sources O thr labels w = [] <->
+   forall j, (j < length w)%nat -> is_bad (nth j labels 0) = true \/ fltb O (nth j w (f0 O)) thr = true).
+Proof.
+  intros F O [H1 [H2 [H3 [H4 [H5 H6]]]]] thr labels w.
+  exact (no_source_iff F O H1 H2 H3 H4 H5 H6 thr labels w).
+Qed.
+Print Assumptions C15_bad_zero_when_isolated.
+
+(* 4. The recommendation block: with features that may be NaN (None; every
+   comparison False), channel i gets 2 if psd_hf > psd threshold or
+   xcor_hf > similarity_threshold[1]; else 1 if xcor_hf < similarity_threshold[0];
+   else 3 if it belongs to the top block; else 0 (precedence 2 over 1 over 3). *)
+Theorem C15_label_rule_spec :
+  forall (F : Type) (O : ops F) (sim_lo sim_hi psd_thr out_thr : F)
+         (hf lf psd : list (option F)) (i : nat),
+  length psd = length hf -> (i < length hf)%nat ->
+  let noisy := flt O (Some psd_thr) (nth i psd None) || flt O (Some sim_hi) (nth i hf None) in
+  let dead := flt O (nth i hf None) (Some sim_lo) in
+  let top := existsb (Z.eqb (Z.of_nat i))
+               (top_block (Z.of_nat (length hf)) (ioutside_raw O out_thr lf)) in
+  length (label_rule O sim_lo sim_hi psd_thr out_thr hf lf psd) = length hf /\
+  nth i (label_rule O sim_lo sim_hi psd_thr out_thr hf lf psd) 0 =
+    if noisy then 2 else if dead then 1 else if top then 3 else 0.
+Proof. intros F O. exact (label_rule_spec O). Qed.
+Print Assumptions C15_label_rule_spec.
+
+(* 5. The cumsum/diff rule selects exactly the maximal run of channels with
+   xcor_lf < threshold that ends at the LAST channel: channel i is a label-3
+   candidate iff every channel from i to nc-1 is below the threshold.  (In
+   particular nothing is labelled outside when the last channel is not.) *)
+Theorem C15_outside_is_top_block :
+  forall (F : Type) (O : ops F) (out_thr : F) (lf : list (option F)) (i : Z),
+  let nc := Z.of_nat (length lf) in
+  In i (top_block nc (ioutside_raw O out_thr lf)) <->
+  0 <= i < nc /\ forall j, i <= j < nc -> flt O (nth (Z.to_nat j) lf None) (Some out_thr) = true.
+Proof. intros F O. exact (outside_top_block O). Qed.
+Print Assumptions C15_outside_is_top_block.
+
+(* 6. The label of a file is, per channel, the most frequent label over the
+   batches, the smallest one among equally frequent labels. *)
+Theorem C15_mode_spec :
+  forall (nc : nat) (batches : list (list Z)) (c : nat),
+  batches <> [] -> (c < nc)%nat ->
+  let col := map (fun b => nth c b 0) batches in
+  let m := nth c (cbin_labels nc batches) 0 in
+  length (cbin_labels nc batches) = nc /\
+  In m col /\
+  forall v, count v col <= count m col /\ (count v col = count m col -> m <= v).
+Proof.
+  intros nc batches c Hne Hc col m.
+  destruct (cbin_labels_spec nc batches) as [Hlen Hnth].
+  split; [exact Hlen|]. unfold m. rewrite (Hnth c Hc). fold col.
+  apply mode_spec. unfold col. destruct batches; [congruence | discriminate].
+Qed.
+Print Assumptions C15_mode_spec.
+
+(* 7. The carrier on which the model is RUN against the implementation is an
+   ordered field, so theorems 2 and 3 are statements about that very run. *)
+Theorem C15_Qc_ordered_field : ordered_field QcOps.
+Proof.
+  assert (Hlt : forall a b : Qc, Qcltb a b = true <-> (a < b)%Qc).
+  { intros a b. unfold Qcltb. rewrite Qclt_alt. destruct (a ?= b)%Qc; split; congruence. }
+  unfold ordered_field. cbn [f0 f1 fadd fmul fsub fopp fdiv finv fltb QcOps].
+  split; [exact Qcft|]. split.
+  { intros a. unfold Qcltb. now rewrite (proj1 (Qceq_alt a a) eq_refl). }
+  split.
+  { intros a b c. rewrite !Hlt. apply Qclt_trans. }
+  split.
+  { intros a b. rewrite !Hlt. destruct (a ?= b)%Qc eqn:E.
+    - right; left. now apply Qceq_alt.
+    - left. now apply Qclt_alt.
+    - right; right. now apply Qcgt_alt in E. }
+  split.
+  { intros a b c. rewrite !Hlt. unfold Qclt, Qcplus. cbn [this Q2Qc]. intros H.
+    rewrite !Qred_correct. now apply Qplus_lt_l. }
+  intros a b. rewrite !Hlt. intros Ha Hb.
+  pose proof (Qcmult_lt_compat_r 0 a b Hb Ha) as H. now rewrite Qcmult_0_l in H.
+Qed.
+Print Assumptions C15_Qc_ordered_field.
+
+(* ---------------------------------------------------------------------- *)
+(* The hypotheses are satisfiable on concrete, non-trivial inputs.           *)
+Local Definition h : Qc := dyadic 1 1.     (* 1/2 *)
+Local Definition q : Qc := dyadic 1 10.    (* 1/1024 < 0.005 *)
+Local Definition one : Qc := dyadic 1 0.
+Local Definition Wex (i : nat) : list Qc :=
+  match i with
+  | 1%nat => [h; one; one; q]
+  | _ => [q; q; q; one]
+  end.
+Local Definition dat : list (list Qc) :=
+  map (map (fun z => dyadic z 0)) [[6; -3]; [100; 100]; [0; 9]; [7; 7]].
+
+(* channel 1 (dead) has sources 0 (weight 1/2 -> 1/3) and 2 (weight 1 -> 2/3);
+   channel 3 (noisy) only sees itself and weights below 0.005: zero. *)
+Example C15_ex_interpolate :
+  map (map enc_val) (interpolate QcOps c_0005 Wex [0; 1; 3; 2] dat) =
+  [[6 * 2 ^ 32; -3 * 2 ^ 32]; [2 * 2 ^ 32; 5 * 2 ^ 32]; [0; 9 * 2 ^ 32]; [0; 0]].
+Proof. vm_compute. reflexivity. Qed.
+
+Example C15_ex_sources :
+  map fst (sources QcOps c_0005 [0; 1; 3; 2] (Wex 1)) = [0%nat; 2%nat] /\
+  sources QcOps c_0005 [0; 1; 3; 2] (Wex 3) = [].
+Proof. vm_compute. split; reflexivity. Qed.
+
+Example C15_ex_hyps :
+  (forall p v, In v (Wex p) -> fle QcOps (f0 QcOps) v) /\ fltb QcOps (f0 QcOps) c_0005 = true.
+Proof.
+  split; [|vm_compute; reflexivity].
+  intros [|[|p]] v Hv; cbn in Hv; repeat (destruct Hv as [<-|Hv]; [vm_compute; reflexivity|]); destruct Hv.
+Qed.
+
+(* label rule: 8 channels; channel 2 incoherent (dead), channel 4 noisy, channels 1 and 5..7 below the
+   outside threshold: only the run 5..7 that ends at the last channel becomes 3, and channel 6, also
+   dead, keeps 1 (precedence). *)
+Local Definition S (m k : Z) : option Qc := Some (dyadic m k).
+Example C15_ex_rule :
+  label_rule QcOps (dyadic (-1) 1) (dyadic 1 0) c_002 c_m075
+    [S 0 0; S 0 0; S (-1) 0; S 0 0; S 0 0; S 0 0; S (-3) 2; None]
+    [S 0 0; S (-1) 0; S 0 0; S 0 0; S 0 0; S (-1) 0; S (-1) 0; S (-7) 3]
+    [S 1 10; S 1 10; S 1 10; S 1 10; S 1 0; S 1 10; S 1 10; S 1 10]
+  = [0; 0; 1; 0; 2; 3; 1; 3].
+Proof. vm_compute. reflexivity. Qed.
+
+(* mode: ties go to the smallest label *)
+Example C15_ex_mode :
+  cbin_labels 3 [[0; 3; 2]; [1; 3; 1]; [1; 0; 2]; [0; 0; 1]] = [0; 0; 1].
+Proof. vm_compute. reflexivity. Qed.
